@@ -49,7 +49,7 @@ def languages():
 
 COMMON_LANGS = ["en", "fr", "ja", "em", "no", "de", "ru", "ar", "zh-CN", "en-pirate", "ht", "sr-Latn"]
 HEADERS = ["a", "b", "a", "b", "id", "uri", "name", "text", "type", "a", "a b", "a(b", "a.b", "[", "a\\\\", "$1", "é", "a|b".replace("|", "\\|"), "<a>", "*", "a+", "^a", "(?i)A"]
-WORDS = ["alpha", "beta", "{x}", "%s", "<a>", "<b>", "<a(b>", "<a.b>", "<axb>", "<[>", "<a\\>", "<$1>", "<a b>", "<A>", "Given", "Soit", "|", "\"\"\"", "@x", "#", "ünï", "日本", "🎬", ":", "Feature:", "x y", "\\", "<", ">", "*"]
+WORDS = ["alpha", "beta", "{x}", "%s", "cafe\u0301", "\u212bngstro\u0308m", "nb\u00a0sp", "<a>", "<b>", "<a(b>", "<a.b>", "<axb>", "<[>", "<a\\>", "<$1>", "<a b>", "<A>", "Given", "Soit", "|", "\"\"\"", "@x", "#", "ünï", "日本", "🎬", ":", "Feature:", "x y", "\\", "<", ">", "*"]
 
 
 def _kw(rng, spec, key):
@@ -177,7 +177,7 @@ def gen_doc(rng, default="en", force_lang=None):
     return "\n".join(L) + ("\n" if rng.random() < 0.8 else "")
 
 
-JUNK = ["junk line", "{\"json\": 1}", "{line} of {column}", "{} {0} %s %d", "100% {unclosed", "Feature: again", "  Background:", "| stray | row |", '"""', "```", "@tag only", "@bad tag with space", "# language: fr",
+JUNK = ["junk line", "Alors\u00a0que no-break space", "zero\u200bwidth and soft\u00adhyphen", "e\u0301 decomposed \u212b \u2126", "\x1b[31mescape\x1b[0m", "{\"json\": 1}", "{line} of {column}", "{} {0} %s %d", "100% {unclosed", "Feature: again", "  Background:", "| stray | row |", '"""', "```", "@tag only", "@bad tag with space", "# language: fr",
         "# language: xx", "    * star step", "Examples:", "  Rule: r", "Scenario Outline: so", "\t", "<a>", "  | ragged |", "And dangling"]
 
 
